@@ -90,6 +90,38 @@ abbrev R (α : Type) := Bits → Except Err (α × Bits)
 def readBits (n : Nat) : R Bits := fun bs =>
   if bs.length < n then .error .bitRead else .ok (bs.take n, bs.drop n)
 
+/-! compiled-code replacement for `readBits` (which tests `bs.length < n`, walking the whole remaining
+    stream on every read); `@[csimp]` requires the proof of equality given here -/
+def splitExact : Nat → Bits → Option (Bits × Bits)
+  | 0, bs => some ([], bs)
+  | _ + 1, [] => none
+  | n + 1, b :: bs => match splitExact n bs with
+    | none => none
+    | some (x, r) => some (b :: x, r)
+
+def readBitsFast (n : Nat) : R Bits := fun bs =>
+  match splitExact n bs with
+  | none => .error .bitRead
+  | some p => .ok p
+
+theorem splitExact_eq (n : Nat) (bs : Bits) :
+    splitExact n bs = if bs.length < n then none else some (bs.take n, bs.drop n) := by
+  induction n generalizing bs with
+  | zero => simp [splitExact]
+  | succ n ih =>
+    cases bs with
+    | nil => simp [splitExact]
+    | cons b bs =>
+      simp only [splitExact, ih, List.length_cons, List.take_succ_cons, List.drop_succ_cons]
+      by_cases h : bs.length < n
+      · simp [h]
+      · simp [h]
+
+@[csimp] theorem readBits_eq_fast : @readBits = @readBitsFast := by
+  funext n bs
+  simp only [readBits, readBitsFast, splitExact_eq]
+  by_cases h : bs.length < n <;> simp [h]
+
 def readUInt (n : Nat) : R Nat := fun bs =>
   if n = 0 then .error .other
   else match readBits n bs with
